@@ -70,7 +70,16 @@ def check_job(world, rec, acc, order):
             queue_event = True
     if rec['kind'] == 'pr' and st in ('NothingToDo', 'QueueBuildFailed') \
             and int(rec['arg']) in tb:
-        queue_event = True
+        # an event on a queued pull request is a queue evaluation only if
+        # Bert-E got as far as looking at the queue (it asked the host about
+        # queue commits); NothingToDo can also come from an early exit, e.g.
+        # when the author deleted the source branch of the queued PR
+        qshas = {sha for vers in tb.values() for sha in vers.values()}
+        if any(sha in qshas for (sha, k, ans) in rec.get('status_queries',
+                                                         [])):
+            queue_event = True
+        else:
+            acc.count('c05w_pr_event_on_queued_pr_ended_before_the_queue')
     if not queue_event or st not in ('Merged', 'NothingToDo',
                                      'QueueBuildFailed'):
         order[:] = [p for p in order if p in ta]
